@@ -21,7 +21,8 @@ import re
 from ir import Untranslatable
 
 INTRINSIC = {'exp': 'np.exp', 'log': 'np.log', 'log10': 'np.log10', 'sqrt': 'np.sqrt',
-             'abs': 'np.abs', 'sin': 'np.sin', 'cos': 'np.cos', 'sum': 'np.sum'}
+             'abs': 'np.abs', 'sin': 'np.sin', 'cos': 'np.cos', 'sum': 'np.sum',
+             'ieee_is_nan': 'np.isnan', 'aimag': 'np.imag'}
 
 TOK = re.compile(r"""
     (?P<num>(\d+\.\d*|\.\d+|\d+)([dDeE][+-]?\d+)?(_\w+)?)
@@ -341,13 +342,41 @@ class FConv:
     def index(self, a):
         """Fortran 1-based subscript text -> 0-based Python subscript"""
         a = a.strip()
-        if a.startswith('(') and a.endswith(')'):
-            a = a[1:-1]
+        while a.startswith('(') and a.endswith(')'):
+            a = a[1:-1].strip()
+        if a == ':':
+            return ':'
         if a in self.loopvars:
             return a
         if re.fullmatch(r'\d+', a):
             return str(int(a) - 1)
         raise Untranslatable('subscript %r' % a)
+
+    def linear(self, text, shift):
+        """a loop bound (integer expression in literals, dimension names and 1-based loop variables) rewritten in the
+        0-based Python loop variables (v_f = v + 1), plus `shift`"""
+        toks = tokenize(text)
+        coef, const, sign = {}, shift, 1
+        for k, v in toks:
+            if k == 'op' and v in '+-':
+                sign = 1 if v == '+' else -1
+            elif k == 'num' and re.fullmatch(r'\d+', v):
+                const += sign * int(v)
+                sign = 1
+            elif k == 'name':
+                coef[v] = coef.get(v, 0) + sign
+                if v in self.loopvars:
+                    const += sign
+                sign = 1
+            else:
+                raise Untranslatable('loop bound %r' % text)
+        terms = [(n, c) for n, c in coef.items() if c != 0]
+        if not terms:
+            return str(const)
+        if len(terms) == 1 and terms[0][1] == 1:
+            n = terms[0][0]
+            return n if const == 0 else ('%s + %d' % (n, const) if const > 0 else '%s - %d' % (n, -const))
+        raise Untranslatable('loop bound %r' % text)
 
     def ref(self, name, args):
         d = self.sub.decl.get(name)
@@ -365,10 +394,16 @@ class FConv:
             if len(args) == 2 and name in self.arr2:
                 # coef(i, j)  ->  python table row j-1, column i
                 return '%s[%s, %s]' % (name, self.index(args[1]), self.index(args[0]))
+            if len(args) == 2:
+                if args[0] == ':' and args[1] == ':':
+                    return name
+                return '%s[%s, %s]' % (name, self.index(args[0]), self.index(args[1]))
             raise Untranslatable('array reference %s%r' % (name, args))
         if name in INTRINSIC:
             return '%s(%s)' % (INTRINSIC[name], ', '.join(args))
         if name in ('real', 'dble'):
+            if args[0].startswith('z_roots['):
+                return 'np.real(%s)' % args[0]
             return args[0]
         raise Untranslatable('reference %s(...)' % name)
 
@@ -393,6 +428,14 @@ class FConv:
         for nm, d in sub.decl.items():
             if d['param'] is not None and d['type'] == 'integer':
                 lines.append('    %s = %s' % (nm, d['param']))
+        if getattr(self, 'init_arrays', False):
+            for nm, d in sub.decl.items():
+                if d['dims'] and d['intent'] != 'in' and d['type'] == 'real' and d['param'] is None:
+                    dd = [x if not x.isdigit() else x for x in d['dims']]
+                    if len(dd) == 1:
+                        lines.append('    %s = np.zeros(%s)' % (nm, dd[0]))
+                    else:
+                        lines.append('    %s = np.zeros((%s, %s))' % (nm, dd[0], dd[1]))
         stack = []
         for ln in sub.body:
             low = ln.strip()
@@ -417,11 +460,16 @@ class FConv:
                 ind -= 1
                 stack.pop()
                 continue
-            m = re.match(r'do\s+(\w+)\s*=\s*1\s*,\s*(\w+)$', lowl)
+            m = re.match(r'do\s+(\w+)\s*=\s*([^,]+),\s*([^,]+)$', lowl)
             if m:
-                var, n = m.group(1), m.group(2)
+                var = m.group(1)
+                lo = self.linear(m.group(2), -1)
+                hi = self.linear(m.group(3), 0)
                 self.loopvars.append(var)
-                lines.append(pad + 'for %s in range(%s):' % (var, n))
+                if lo == '0':
+                    lines.append(pad + 'for %s in range(%s):' % (var, hi))
+                else:
+                    lines.append(pad + 'for %s in range(%s, %s):' % (var, lo, hi))
                 ind += 1
                 stack.append('do')
                 continue
@@ -435,6 +483,10 @@ class FConv:
             m = re.match(r'call\s+(\w+)\s*\((.*)\)$', lowl)
             if m:
                 callee = m.group(1)
+                if callee == 'cubic_roots':
+                    actual = split_top(m.group(2))
+                    lines.append(pad + '%s = cubic_roots(%s)' % (self.lhs(actual[1]), self.conv_expr(actual[0])))
+                    continue
                 if callee not in self.sigs:
                     raise Untranslatable('call to unknown %s' % callee)
                 cins, couts, cdims = self.sigs[callee]
@@ -484,6 +536,11 @@ class FConv:
         nm, sub = kw(m.group(1)), m.group(2).strip()
         if sub == ':':
             return nm
+        parts = split_top(sub)
+        if len(parts) == 2:
+            if parts[0] == ':' and parts[1] == ':':
+                return nm
+            return '%s[%s, %s]' % (nm, self.index(parts[0]), self.index(parts[1]))
         return '%s[%s]' % (nm, self.index(sub))
 
 
@@ -513,7 +570,7 @@ def signatures(subs):
     return sigs, order
 
 
-def fortran_to_python(src, only=None):
+def fortran_to_python(src, only=None, full=False):
     """-> (python source text, shapes {fname: {param: 'v'}}, sigs)"""
     mp, subs = parse_units(src)
     sigs, order = signatures(subs)
@@ -525,10 +582,11 @@ def fortran_to_python(src, only=None):
             continue
         fc = FConv(s, mp, sigs)
         fc.sigs_order = order
+        fc.init_arrays = full
         try:
             out.append(fc.convert())
         except Untranslatable as e:
             errors[s.name] = str(e)
             continue
-        shapes[s.name] = {a: 'v' for a in sigs[s.name][0] if fc.is_array(a)}
+        shapes[s.name] = {a: ('m' if len(s.decl[a]['dims']) == 2 else 'v') for a in sigs[s.name][0] if fc.is_array(a)}
     return '\n\n'.join(out) + '\n', shapes, sigs, order, errors
